@@ -403,6 +403,19 @@ func (s *ReverseInnerSearcher) Find(haystack []byte) *Match {
 		// Step 1: Reverse search on PREFIX portion with anti-quadratic guard
 		// Check if we can reach this inner literal from an earlier position.
 		// Use minMatchStart to avoid re-scanning regions already proven to have no match.
+		if pos == 0 {
+			// Nothing lies before the literal, so the reverse scan has no input
+			// (and reports failure for an empty region): the prefix has to match
+			// the empty string here. Let the full pattern decide.
+			if start, end, found := s.pikevm.Search(haystack); found && start == 0 {
+				return NewMatch(start, end, haystack)
+			}
+			searchStart = pos + 1
+			if searchStart >= len(haystack) {
+				break
+			}
+			continue
+		}
 		matchStart := s.reverseDFA.SearchReverseLimited(revCache, haystack, 0, pos, minMatchStart)
 		if matchStart == lazy.SearchReverseLimitedQuadratic {
 			// Reverse scan hit the anti-quadratic guard - fall back to PikeVM
@@ -589,6 +602,18 @@ func (s *ReverseInnerSearcher) findIndicesAtImpl(haystack []byte, at int, fwdCac
 
 		// Step 1: Reverse search on PREFIX portion with anti-quadratic guard
 		// Use minMatchStart to avoid re-scanning regions already checked
+		if pos == at {
+			// Empty region before the literal (see Find): the prefix must match
+			// the empty string at 'at'.
+			if start, end, found := s.pikevm.SearchAt(haystack, at); found && start == at {
+				return start, end, true
+			}
+			searchStart = pos + 1
+			if searchStart >= len(haystack) {
+				break
+			}
+			continue
+		}
 		matchStart := s.reverseDFA.SearchReverseLimited(revCache, haystack, at, pos, minMatchStart)
 		if matchStart == lazy.SearchReverseLimitedQuadratic {
 			// Quadratic behavior detected - fall back to PikeVM
